@@ -52,6 +52,13 @@ def cached_verus(cmd, path, cwd):
         except (ValueError, KeyError):
             pass
     rc, out, err, wall = sh(cmd, cwd=cwd, timeout=3600)
+    if 'verification-results' not in out and '"message"' not in err:
+        # no verdict and no diagnostic: Verus itself died (seen when many instances start at the same moment): once more
+        time.sleep(2)
+        rc, out, err, wall = sh(cmd, cwd=cwd, timeout=3600)
+    if rc < 0 or 'verification-results' not in out and '"message"' not in err:
+        # killed by a signal (OOM killer, an operator) or no output at all: not a result of Verus on this text -- never cache it
+        return rc, out, err, wall, False
     tmp = cp + '.%d.tmp' % os.getpid()
     json.dump(dict(rc=rc, out=out, err=err, wall=wall), open(tmp, 'w'))
     os.replace(tmp, cp)
